@@ -192,4 +192,25 @@ def stepWS (s : WState) : Who → WState
 
 def runWS (s : WState) (sched : List Who) : WState := sched.foldl stepWS s
 
+
+/-! ### (d) one epoll event -/
+
+
+/-- the bits of one epoll event that connEventHandler.handleEvent looks at -/
+structure Events where
+  rdhup : Bool := false
+  in_ : Bool := false
+  out : Bool := false
+  deriving DecidableEq, Repr
+
+inductive EvAct where
+  | remoteClose | readReady | writeReady
+  deriving DecidableEq, Repr
+
+/-- connEventHandler.handleEvent: a hang-up ends the connection; otherwise read-ready and write-ready are served
+    INDEPENDENTLY, the read first -/
+def handleEvent (e : Events) : List EvAct :=
+  if e.rdhup then [.remoteClose]
+  else (if e.in_ then [.readReady] else []) ++ (if e.out then [.writeReady] else [])
+
 end EventConn
